@@ -875,7 +875,16 @@ impl DPEventLoop {
 
     new_reader.set_requested_deadline_check_timer();
     trace!("Add reader: {:?}", new_reader);
+    let topic_name = new_reader.topic_name().clone();
     self.message_receiver.add_reader(new_reader);
+
+    // Writers on this topic may have been discovered before this Reader was
+    // created. Discovery notifies about each of them only when their
+    // announcement arrives, so match against what is already known.
+    let known_writers = discovery_db_read(&self.discovery_db).writers_on_topic(&topic_name);
+    for discovered_writer_data in &known_writers {
+      self.remote_writer_discovered(discovered_writer_data);
+    }
   }
 
   fn remove_local_reader(&mut self, reader_guid: GUID) {
@@ -935,7 +944,16 @@ impl DPEventLoop {
       )
       .expect("Writer command channel registration failed!!");
 
+    let topic_name = new_writer.topic_name().clone();
     self.writers.insert(new_writer.guid().entity_id, new_writer);
+
+    // Readers on this topic may have been discovered before this Writer was
+    // created. Discovery notifies about each of them only when their
+    // announcement arrives, so match against what is already known.
+    let known_readers = discovery_db_read(&self.discovery_db).readers_on_topic(&topic_name);
+    for discovered_reader_data in &known_readers {
+      self.remote_reader_discovered(discovered_reader_data);
+    }
   }
 
   fn remove_local_writer(&mut self, writer_guid: &GUID) {
